@@ -328,7 +328,7 @@ def run_streams(pid, streams, cfgname, binary, seed, scale, corpus=True):
                     cases.append(dict(id='%s-%d' % (c0['id'], i), world=wname, decl=c0['decl'], exhaustive=True,
                                       ops=c0['ops'][:npre] + [x[0] for x in part], obs=c0['obs'][:npre] + [x[1] for x in part]))
         else:
-            cases += gen_ops.generate(binary, w, profile, seed, n * scale, maxlen=maxlen, presets=(profile == 'S7'))
+            cases += gen_ops.generate(binary, w, profile, seed, n * scale, maxlen=maxlen, presets=(True if profile == 'S7' else ('some' if profile == 'S12' else False)))
         for c in cases:
             c['stream'] = profile
             c['config'] = cfgname
